@@ -195,9 +195,10 @@ class TransferContract:
 class Cfg:
     """Embedder configuration of a run (mirrors State.config)."""
     def __init__(self, max_items=1024, max_item_size=1024, limit=128, flags=None, sigext=(),
-                 ctplugins=(), contracts=(), now=None):
+                 ctplugins=(), contracts=(), now=None, global_flags=None):
         self.max_items, self.max_item_size, self.limit = max_items, max_item_size, limit
         self.flags = dict(flags or {})          # additional_flags
+        self.global_flags = dict(global_flags or {})   # entries of the module table functions.flags set by the embedder
         self.sigext = tuple(sigext)             # plugin ids
         self.ctplugins = tuple(ctplugins)       # (id, kind)
         self.contracts = tuple(contracts)       # (cid bytes, kind)
@@ -208,11 +209,19 @@ class Cfg:
         F.set_tape_flags(t, self.flags)         # the implementation's own defaults + overlay
         return t.flags
 
+    def spec_flags(self, auth=False):
+        """flags of every tape of the run as documented: the standard table (module defaults, then what the
+        embedder configured there), overlaid with additional_flags.  Computed here, not with set_tape_flags."""
+        table = dict(_DEFAULT_FLAGS)
+        table.update(self.global_flags)
+        eff = {k: (v if k in _FLAGS_TO_SET else False) for k, v in table.items() if type(k) in (str, int)}
+        if not auth:
+            eff.update({k: v for k, v in self.flags.items() if type(k) in (str, int)})
+        return eff
+
     def line(self, auth=False):
         fl = []
-        eff = C.Tape(b'')
-        F.set_tape_flags(eff, {} if auth else self.flags)
-        for k, v in eff.flags.items():
+        for k, v in self.spec_flags(auth).items():
             ks = ('s' + k.encode().hex()) if type(k) is str else ('i' + zhex(k))
             vs = ('b1' if v else 'b0') if type(v) is bool else ('i' + zhex(v) if type(v) is int else 'o')
             fl.append(ks + ':' + vs)
@@ -237,10 +246,31 @@ class Cfg:
         return d
 
     def to_json(self):
+        if self.global_flags:
+            return dict(Cfg(self.max_items, self.max_item_size, self.limit, self.flags, self.sigext, self.ctplugins,
+                            self.contracts, self.now).to_json(), global_flags={repr(k): v for k, v in self.global_flags.items()})
         return {'max_items': self.max_items, 'max_item_size': self.max_item_size, 'limit': self.limit,
                 'flags': {repr(k): v for k, v in self.flags.items()}, 'sigext': list(self.sigext),
                 'ctplugins': [list(x) for x in self.ctplugins],
                 'contracts': [[c.hex(), k] for c, k in self.contracts], 'now': self.now}
+
+
+_DEFAULT_FLAGS = dict(F.flags)            # the module table as shipped (read once at import)
+_FLAGS_TO_SET = list(F.flags_to_set)
+
+
+class GlobalFlags:
+    """the embedder's way of configuring thresholds / flags for run_auth_scripts: entries of functions.flags"""
+    def __init__(self, cfg):
+        self.g = cfg.global_flags
+
+    def __enter__(self):
+        self.saved = dict(F.flags)
+        F.flags.update(self.g)
+
+    def __exit__(self, *a):
+        F.flags.clear(); F.flags.update(self.saved)
+        return False
 
 
 # ---------------------------------------------------------------- watchdog (a changed implementation may not terminate)
@@ -284,6 +314,7 @@ class _Capture:
     depth = 0
     top = None          # (tape, stack, cache) of the latest outermost run_tape call
     log = None          # the Log of the run in progress (forkstream's fork op records its raises there)
+    recursion = False   # CPython's recursion limit was reached somewhere during the run (sticky)
 
 
 _orig_run_tape = F.run_tape
@@ -297,6 +328,13 @@ def _run_tape_wrapper(tape, stack, cache, additional_flags={}):
     _Capture.depth += 1
     try:
         return _orig_run_tape(tape, stack, cache, additional_flags=additional_flags)
+    except RecursionError:
+        _Capture.recursion = True      # CPython's recursion limit is outside the model: the case is skipped
+        raise
+    except E.ScriptExecutionError as e:
+        if 'interpreter recursion limit' in str(e):
+            _Capture.recursion = True
+        raise
     finally:
         _Capture.depth -= 1
 
@@ -312,8 +350,9 @@ def impl_run_script(script, cache_vals, cfg):
     _Capture.top = None
     _Capture.depth = 0
     _Capture.log = log
+    _Capture.recursion = False
     out = None
-    with Watch():
+    with GlobalFlags(cfg), Watch():
         try:
             F.run_script(script, cache_vals, cfg.contract_objs(log), cfg.flags, cfg.plugins(log),
                          cfg.max_items, cfg.max_item_size, cfg.limit)
@@ -326,6 +365,8 @@ def impl_run_script(script, cache_vals, cfg):
             out = 'raised:' + exn_name(e)
     if Watch.fired or out is None:
         return 'timeout'
+    if _Capture.recursion and out != 'recursion':
+        return 'recursion'
     if out == 'recursion':
         return 'recursion'
     tape, stack, cache = _Capture.top
@@ -340,12 +381,15 @@ def impl_run_auth(scripts, cache_vals, cfg):
     _Capture.top = None
     _Capture.depth = 0
     _Capture.log = log
+    _Capture.recursion = False
     v = None
-    with Watch():
+    with GlobalFlags(cfg), Watch():
         v = F.run_auth_scripts(list(scripts), cache_vals, cfg.contract_objs(log), cfg.plugins(log),
                                cfg.max_items, cfg.max_item_size, cfg.limit)
     if Watch.fired or v is None:
         return 'timeout'
+    if _Capture.recursion:
+        return 'recursion'
     tape, stack, cache = _Capture.top
     return ' | '.join(['verdict:%d' % (1 if v else 0), '-', '-', stack_str(stack.list()),
                        cache_str(cache), ','.join(log) or '-'])
@@ -498,6 +542,21 @@ def _exn_text_moved(line):
     return False
 
 
+def exntext_excuse(cfg, scripts, i, m):
+    """Exception messages are compared by class only, so their real length is unknown to the model.  Under a small
+    max_item_size that length can decide a size check once the text is read back from cache[b'E'].  A disagreement
+    is excused (and counted as skip-exntext) only if an exception text exists and the script contains a read of key
+    b'E' (its content may then flow into any instruction), or the limit is small and the text visibly moved to the
+    stack or another key."""
+    if i == m:
+        return False
+    has_text = (_EXN_TAIL in i) or (_EXN_TAIL in m)
+    reads_e = any(pat in sc for sc in scripts for pat in (b'\x01\x45', b'\x02\x45'))
+    if has_text and reads_e:
+        return True          # the text itself may have been hashed / measured / concatenated: content is not modelled
+    return cfg.max_item_size < 256 and (_exn_text_moved(m) or _exn_text_moved(i))
+
+
 def compare_script(model, script, cache_vals, cfg, fuel=20000):
     """returns (status, impl_line, model_line); status in agree/differ/skip-*"""
     i = impl_run_script(script, cache_vals, cfg)
@@ -510,7 +569,7 @@ def compare_script(model, script, cache_vals, cfg, fuel=20000):
         return 'skip-unmodelled', i, m
     if m == 'fuel':
         return 'skip-fuel', i, m
-    if i != m and cfg.max_item_size < 256 and (_exn_text_moved(m) or _exn_text_moved(i)):
+    if exntext_excuse(cfg, [script], i, m):
         return 'skip-exntext', i, m      # message length decides a size check; messages are not modelled
     return ('agree' if i == m else 'differ'), i, m
 
@@ -522,11 +581,13 @@ def compare_auth(model, scripts, cache_vals, cfg, fuel=20000):
         return 'skip-recursion', '', ''
     if i == 'timeout':
         return 'differ', 'timeout: the implementation did not finish within the per-case watchdog', ''
+    if i == 'recursion':
+        return 'skip-recursion', i, ''
     m = model.run_auth(scripts, cache_vals, cfg, fuel)
     if m.startswith('unmod:'):
         return 'skip-unmodelled', i, m
     if m == 'fuel':
         return 'skip-fuel', i, m
-    if i != m and cfg.max_item_size < 256 and (_exn_text_moved(m) or _exn_text_moved(i)):
+    if exntext_excuse(cfg, list(scripts), i, m):
         return 'skip-exntext', i, m      # message length decides a size check; messages are not modelled
     return ('agree' if i == m else 'differ'), i, m
